@@ -56,6 +56,14 @@ def import_kio() -> None:
         mod.__version_tuple__ = mod.version_tuple = (0, "verif")
         sys.modules.setdefault("kio._version", mod)
     import kio  # noqa: F401
+    # everything is imported up front: no simulated thread may ever be parked
+    # while holding an import lock
+    import kio.records.readers  # noqa: F401
+    import kio.records.writers  # noqa: F401
+    import kio.serial  # noqa: F401
+    from . import universe
+
+    universe.load()
 
     got = os.path.dirname(os.path.abspath(kio.__file__))
     want = os.path.join(os.path.abspath(SRC), "kio")
@@ -189,6 +197,7 @@ def _worker_init(mem_gib: float, wall_s: int) -> None:
     if mem_gib:
         _limit_memory(mem_gib)
     faulthandler.enable()
+    faulthandler.register(signal.SIGUSR1, all_threads=True)
     if wall_s:
         faulthandler.dump_traceback_later(wall_s, exit=True)
 
